@@ -20,6 +20,7 @@ import (
 type colItem struct {
 	id   string
 	vals map[string]any
+	skip []string // fields whose stored value is not compared (cross-kind name collision at Add)
 }
 
 type colModel struct {
@@ -66,8 +67,22 @@ var c19Kinds = []jsonapi.Attr{
 	{Type: jsonapi.AttrTypeBytes}, {Type: jsonapi.AttrTypeBool}, {Type: jsonapi.AttrTypeUint64, Nullable: true}, {Type: jsonapi.AttrTypeTime},
 }
 
-func drawColType(t *rapid.T, label string) gen.TypeSpec {
+// drawColType draws a type over small name pools. crossKind: the attribute
+// named "m" and the relationship named "p" may appear, which collide with the
+// usual relationship "m" / attribute "p" of another type.
+func drawColType(t *rapid.T, label string, crossKind ...bool) gen.TypeSpec {
 	ts := gen.TypeSpec{Name: "t"}
+
+	if len(crossKind) > 0 && crossKind[0] && rapid.IntRange(0, 3).Draw(t, label+"-cross") == 0 {
+		if rapid.Bool().Draw(t, label+"-crossattr") {
+			k := rapid.SampledFrom(c19Kinds).Draw(t, label+"-kind-cross")
+			ts.Attrs = append(ts.Attrs, jsonapi.Attr{Name: "m", Type: k.Type, Nullable: k.Nullable})
+		} else {
+			ts.Rels = append(ts.Rels, jsonapi.Rel{FromType: "t", FromName: "p", ToType: "t", ToOne: rapid.Bool().Draw(t, label+"-crossToOne")})
+		}
+
+		return ts
+	}
 
 	for _, n := range []string{"p", "q", "s"} {
 		if rapid.Bool().Draw(t, label+"-has-"+n) {
@@ -128,7 +143,7 @@ func TestC19Store(t *testing.T) {
 
 		t.Repeat(map[string]func(*rapid.T){
 			"Add": func(t *rapid.T) {
-				ts := drawColType(t, "add")
+				ts := drawColType(t, "add", true)
 				if rapid.Bool().Draw(t, "sameType") {
 					// a resource of exactly the collection's current type
 					ts = gen.TypeSpec{Name: "t"}
@@ -185,6 +200,14 @@ func TestC19Store(t *testing.T) {
 				item := &colItem{id: id, vals: map[string]any{}}
 
 				for _, a := range ts.Attrs {
+					if _, taken := model.rels[a.Name]; taken {
+						// The name is a relationship of the collection: the type is
+						// not extended and the stored value of that one field is not
+						// compared (DESIGN §8.10).
+						item.skip = append(item.skip, a.Name)
+						continue
+					}
+
 					if _, ok := model.attrs[a.Name]; !ok {
 						model.attrs[a.Name] = a
 					}
@@ -195,6 +218,11 @@ func TestC19Store(t *testing.T) {
 				}
 
 				for _, rel := range ts.Rels {
+					if _, taken := model.attrs[rel.FromName]; taken {
+						item.skip = append(item.skip, rel.FromName)
+						continue
+					}
+
 					if _, ok := model.rels[rel.FromName]; !ok {
 						mr := rel
 						model.rels[rel.FromName] = mr
@@ -230,6 +258,10 @@ func TestC19Store(t *testing.T) {
 				a := jsonapi.Attr{Name: rapid.SampledFrom([]string{"p", "q", "s", "x"}).Draw(t, "name"), Type: k.Type, Nullable: k.Nullable}
 				_, dup := model.attrs[a.Name]
 
+				if _, cross := model.rels[a.Name]; cross {
+					t.Skip("the name is a relationship of the collection (cross-kind collisions are not compared)")
+				}
+
 				if !dup {
 					model.attrs[a.Name] = a
 
@@ -249,6 +281,10 @@ func TestC19Store(t *testing.T) {
 			"AddRel": func(t *rapid.T) {
 				rel := jsonapi.Rel{FromType: "t", FromName: rapid.SampledFrom([]string{"m", "o", "y"}).Draw(t, "name"), ToType: "t", ToOne: rapid.Bool().Draw(t, "toOne")}
 				_, dup := model.rels[rel.FromName]
+
+				if _, cross := model.attrs[rel.FromName]; cross {
+					t.Skip("the name is an attribute of the collection (cross-kind collisions are not compared)")
+				}
 
 				if !dup {
 					model.rels[rel.FromName] = rel
@@ -380,6 +416,10 @@ func TestC19Store(t *testing.T) {
 
 						for _, n := range gen.SortedKeys(model.attrs) {
 							a := model.attrs[n]
+							if contains(it.skip, n) {
+								continue
+							}
+
 							if ra[n] != a {
 								fail("stored resource %d defines attribute %q as %+v, the collection as %+v", i, n, ra[n], a)
 							}
@@ -397,6 +437,10 @@ func TestC19Store(t *testing.T) {
 
 						for _, n := range gen.SortedKeys(model.rels) {
 							rel := model.rels[n]
+							if contains(it.skip, n) {
+								continue
+							}
+
 							want, ok := it.vals[n]
 							got := res.Get(n)
 
